@@ -10,8 +10,8 @@ finite space (see NOTES.md):
                configurations), followed by both witnesses.
   U3 link      per configuration: two TUs that include ALL headers (alphabetical / reverse order) and use every
                non-template function (link_body.inc), linked as a 1-TU and as a 2-TU program, both run; for g++
-               additionally with -fkeep-inline-functions (every non-template inline function is emitted, so every
-               symbol any of them refers to must exist).
+               additionally TU0 with -fkeep-inline-functions (every non-template inline function is emitted) whose
+               symbol table must not refer to any xtl symbol it does not define.
   U4 errpaths  per configuration one program with 17 error-path scenarios (errpaths.cpp), each run in its own
                process: with exceptions the documented exception must arrive (anti-vacuity, noted only); with
                -fno-exceptions the process must end inside the failing call.
@@ -71,7 +71,7 @@ def cc_cmd(cfg, extra=()):
     cmd = [cc, "-std=" + std]
     if exc == "fno-exceptions":
         cmd.append("-fno-exceptions")
-    cmd += ["-I" + vlib.INCLUDE, "-isystem", EXTINC, "-I" + HERE, "-Werror=return-type"]
+    cmd += ["-I" + vlib.INCLUDE, "-isystem", EXTINC, "-Werror=return-type"]
     if cc.startswith("clang"):
         cmd += ["-fno-caret-diagnostics", "-ferror-limit=8"]
     else:
@@ -228,9 +228,14 @@ def run_includes(ctx, bud, cases, workers=WORKERS):
     return results
 
 
-def judge_includes(ctx, results):
+def judge_includes(ctx, results, clo=None, declared=None):
     """violations of U1. Returns the set of (header, cfg) whose single include fails (everything else built on such a
-    header in that configuration is an implied failure and is not reported again)."""
+    header in that configuration is an implied failure and is not reported again).
+    clo: header -> xtl headers it includes transitively; a header that fails in a configuration in which a header it
+    includes fails too is an implied failure (one broken header = one report, not one per header that includes it).
+    declared: (header, mode) -> configurations of the original run (replay: only the failing ones are re-executed, the
+    configuration class of the signature is relative to the declared ones)."""
+    clo = clo or {}
     by_hm = collections.defaultdict(dict)
     for (h, m, c), r in results.items():
         by_hm[(h, m)][c] = r
@@ -240,12 +245,20 @@ def judge_includes(ctx, results):
             for c, r in per.items():
                 if r[0] != "ok":
                     broken.add((h, c))
+    n_implied = 0
     for (h, m), per in sorted(by_hm.items()):
         for kind in ("does-not-compile", "facility-unusable"):
-            fail = [c for c, r in per.items() if r[0] == kind and not (m == "double" and (h, c) in broken)]
+            fail = []
+            for c, r in per.items():
+                if r[0] != kind:
+                    continue
+                if (m == "double" and (h, c) in broken) or any((g, c) in broken for g in clo.get(h, ())):
+                    n_implied += 1
+                    continue
+                fail.append(c)
             if not fail:
                 continue
-            run = [c for c in per]
+            run = declared[(h, m)] if declared else [c for c in per]
             sig = "C19/%s/%s-include/%s@%s" % (h, m, kind, cfgclass(fail, run))
             c0 = sorted(fail)[0]
             what = ("the header does not compile when it is the only include of a translation unit" if kind == "does-not-compile" else
@@ -254,10 +267,9 @@ def judge_includes(ctx, results):
                 what = "the header compiles when included once but not when included twice in the same translation unit"
             msg = "%s, %s include: %s. Fails in %d of %d configurations (%s); first diagnostic [%s]: %s. Expected: compiles in every configuration." % (
                 h, m, what, len(fail), len(run), "; ".join(cfg_name(c) for c in sorted(fail)), cfg_name(c0), per[c0][1])
-            ctx.violation(sig, msg, harness="c19-include", args=[json.dumps({"kind": "include", "header": h, "mode": m, "cfgs": sorted(run)})])
-    n_implied = sum(1 for (h, m, c), r in results.items() if m == "double" and r[0] != "ok" and (h, c) in broken)
+            ctx.violation(sig, msg, harness="c19-include", args=[json.dumps({"kind": "include", "header": h, "mode": m, "fail": sorted(fail), "cfgs": sorted(run)})])
     if n_implied:
-        ctx.stat("implied_failures_not_reported_separately", n_implied)
+        stat(ctx, "implied_failures_not_reported_separately", n_implied)
     return broken
 
 
@@ -399,7 +411,7 @@ def run_keep_cfg(ctx, headers, cfg, bud):
     src = os.path.join(d, "tu0.cpp")
     obj = os.path.join(d, "tu0.o")
     write_file(src, link_tu_text(headers, 0))
-    rc, _, err = run_tool(cc_cmd(cfg, ["-O0", "-c", "-fkeep-inline-functions", src, "-o", obj]), timeout=900)
+    rc, _, err = run_tool(cc_cmd(cfg, ["-I" + HERE, "-O0", "-c", "-fkeep-inline-functions", src, "-o", obj]), timeout=900)
     stat(ctx, "tool_runs", 2)
     if rc != 0:
         return [("tu-compile", "alphabetical", first_error(err))]
@@ -429,7 +441,7 @@ def run_link_cfg(ctx, headers, cfg, keep, bud):
         return None
     d = os.path.join(GENDIR, "link", cfg_slug(cfg))
     os.makedirs(d, exist_ok=True)
-    extra = ["-O0", "-c"]
+    extra = ["-I" + HERE, "-O0", "-c"]
     finds = []
     objs = {}
     srcs = {"tu0": link_tu_text(headers, 0), "tu1": link_tu_text(headers, 1), "main1": MAIN1, "main2": MAIN2}
@@ -492,7 +504,7 @@ def judge_links(ctx, headers, units, res, broken):
         done.append((c, k))
         for stage, key, diag in finds:
             if stage == "nsyms":
-                ctx.smax("nontemplate_symbols_emitted_with_keep_inline", key)
+                ctx.smax("xtl_symbols_defined_in_keep_inline_object", key)
                 continue
             if any((h, c) in broken for h in headers):
                 stat(ctx, "implied_failures_not_reported_separately", 1)
@@ -545,6 +557,8 @@ def run_errpaths_cfg(ctx, cfg, bud, only=None):
         names = scenario_table()
         ok_any = False
         for k, (name, exc) in sorted(names.items()):
+            if only is not None and k not in only:
+                continue
             e1 = exe + "-%d" % k
             rc1, _, err1 = run_tool(cc_cmd(cfg, ["-O0", "-DC19_ONLY=%d" % k, ERRSRC, "-o", e1]), timeout=900)
             stat(ctx, "tool_runs", 1)
@@ -553,7 +567,7 @@ def run_errpaths_cfg(ctx, cfg, bud, only=None):
             else:
                 ok_any = True
                 exes[k] = e1
-        if not out["build"]:
+        if not out["build"] and only is None:
             raise vlib.HarnessError("errpaths.cpp fails to build as a whole but every scenario builds alone [%s]: %s" % (cfg_name(cfg), err[-1500:]))
         table = names
     else:
@@ -594,7 +608,10 @@ def exec_errpaths(ctx, bud, cfgs, workers, only=None):
     return vlib.parallel([(lambda c=c: run_errpaths_cfg(ctx, c, bud, only)) for c in cfgs], workers=workers)
 
 
-def judge_errpaths(ctx, cfgs, res, only=None):
+ERR_HEADERS = ["xany.hpp", "xbasic_fixed_string.hpp", "xdynamic_bitset.hpp", "xmultimethods.hpp", "xspan.hpp", "xvariant.hpp", "xvisitor.hpp"]
+
+
+def judge_errpaths(ctx, cfgs, res, only=None, broken=()):
     table = scenario_table()
     viol = collections.OrderedDict()  # sig -> [(cfg, text)]
     confirmed = set()
@@ -607,6 +624,9 @@ def judge_errpaths(ctx, cfgs, res, only=None):
             continue
         done.append(c)
         for k, name, diag in r["build"]:
+            if any((h, c) in broken for h in ERR_HEADERS):
+                stat(ctx, "implied_failures_not_reported_separately", 1)
+                continue
             viol.setdefault("C19/%s/build/does-not-compile" % name, []).append((c, "scenario does not build: " + diag))
         for k, f in sorted(r["fates"].items()):
             name, exc = r["list"][k]
@@ -736,7 +756,7 @@ def _run(ctx):
         if bg[name][0] == "err":
             raise bg[name][1]
     stat(ctx, "phase1_wall_s", time.time() - t0)
-    broken = judge_includes(ctx, res1)
+    broken = judge_includes(ctx, res1, clo)
     evaluations += len(res1)
     stat(ctx, "tool_runs", len(res1))
     stat(ctx, "u1_include_cases", len(res1))
@@ -768,7 +788,7 @@ def _run(ctx):
                     "result": "see violations" if any(v["harness"] == "c19-link" for v in ctx.viols) else "compiled -O0, linked (1-TU and 2-TU program), ran; both TUs computed the same digest"})
 
     # U4
-    done4, n4, nt4, nconf = judge_errpaths(ctx, sp["u4"], bg["u4"][1])
+    done4, n4, nt4, nconf = judge_errpaths(ctx, sp["u4"], bg["u4"][1], None, broken)
     evaluations += n4
     stat(ctx, "u4_errpath_runs", n4)
     stat(ctx, "u4_scenarios_confirmed_to_throw_with_exceptions", nconf)
@@ -803,7 +823,7 @@ def _run(ctx):
         "U1 every header of include/xtl (%d) as the ONLY include of a TU x %s, and included TWICE x %s (-fsyntax-only -Werror=return-type; the include(s) are followed by a witness that uses the header); "
         "U2 every ordered pair of distinct headers (%d) in one TU x %s; "
         "U3 a 1-TU and a 2-TU program whose TUs include all headers (TU0 alphabetical, TU1 reverse order) and call or odr-use every non-template function, compiled -O0, linked, run x %s; "
-        "the 2-TU program again with g++ -fkeep-inline-functions x %s; "
+        "TU0 once more with g++ -fkeep-inline-functions (every non-template inline function is emitted whether called or not) and its symbol table read with nm: no symbol of an xtl namespace may be undefined, x %s; "
         "U4 %d error-path scenarios, each in its own process x %s. "
         "evaluations = judged cases (U1 + U2 TUs, U3 programs, U4 runs). distinct_nontrivial = distinct cases that are not degenerate by this rule: U1 cases of headers that contribute "
         "declarations (all but the macro-only xtl_config.hpp); U2 pairs (a,b) where b is NOT already included transitively by a (otherwise the second include is skipped by its guard) "
@@ -844,11 +864,12 @@ def _replay(ctx, rec):
     jsondir = setup_ext(ctx)
     headers = [h for h in list_headers() if header_available(h, jsondir)]
     if d["kind"] == "include":
-        # the configuration class in the signature is relative to the configurations that were run: run them all again
-        cfgs = [_tup(c) for c in d["cfgs"]]
+        # re-execute the failing cases; the configuration class in the signature is relative to the configurations of the
+        # original run, which are carried in the replay file
+        fail = [_tup(c) for c in d["fail"]]
         modes = ("single",) if d["mode"] == "single" else ("single", "double")
-        res = run_includes(ctx, bud, [(d["header"], m, c) for m in modes for c in cfgs])
-        judge_includes(ctx, res)
+        res = run_includes(ctx, bud, [(d["header"], m, c) for m in modes for c in fail])
+        judge_includes(ctx, res, None, {(d["header"], m): [_tup(c) for c in d["cfgs"]] for m in modes})
     elif d["kind"] == "pairs":
         cfgs = [_tup(c) for c in d["cfgs"]]
         pairs = [tuple(p) for p in d["pairs"]]
